@@ -37,7 +37,17 @@ func (c *Ctx) loadOfFieldOf(v ssa.Value, base ssa.Value, fld *types.Var) bool {
 		return false
 	}
 	b, f := fieldOf(fa)
-	return f == fld && c.Resolve(b) == base
+	if f != fld {
+		return false
+	}
+	if c.Resolve(b) == base {
+		return true
+	}
+	// the same field read back from a whole-struct copy of base (`c := *m; c.Topic = f(c.Topic)`)
+	if al, ok := c.Resolve(b).(*ssa.Alloc); ok && c.wholeCopyOf[al] == base && base != nil {
+		return true
+	}
+	return false
 }
 
 // freshCopyOf: v is a freshly allocated slice whose contents are copied from src (a load of fld of base).
@@ -254,6 +264,10 @@ func (c *Ctx) checkCloneDeep(r1 *RuleRep, clone *ssa.Function, st *types.Struct)
 				v := c.Resolve(s.Val)
 				if l, ok := v.(*ssa.UnOp); ok && l.Op == token.MUL && c.Resolve(l.X) == ssa.Value(recv) {
 					whole = s
+					if c.wholeCopyOf == nil {
+						c.wholeCopyOf = map[*ssa.Alloc]ssa.Value{}
+					}
+					c.wholeCopyOf[alloc] = recv
 				} else {
 					r1.Bad("clone/whole-store", s.Pos(), "result is overwritten with a value that is not *receiver")
 				}
